@@ -144,6 +144,9 @@ func checkBoth(buf *[]byte, raw []byte, typ byte, meta uint16, want []byte) (str
 	if why, got := checkAt(buf, raw, 0, typ, meta, want); why != "" {
 		return why, got
 	}
+	if why := util.CheckCellAtEnd(raw, typ, meta, false, want); why != "" {
+		return why, nil
+	}
 	return checkAt(buf, raw, 3, typ, meta, want)
 }
 
